@@ -23,18 +23,18 @@ PROBES = {
             "update_params_false", "refit_equivalence_checked", "no_param_update_checked",
             "update_predict_checked", "update_predict_default_cv", "update_predict_multi_step",
             "update_before_any_fh", "pickle_midway", "ensemble_parallel_update",
-            "cutoff_restored_checked", "exogenous_data"],
+            "cutoff_restored_checked", "exogenous_data", "stale_batch", "failed_call_injected"],
     "C03": ["gapped_fh", "absolute_fh", "fh_at_fit", "fh_reused_across_cutoffs",
             "predict_after_update", "shifted_twin_checked", "gapped_vs_contiguous_checked",
-            "exogenous_data",
+            "exogenous_data", "stale_batch", "failed_call_injected", "unsorted_fh", "fh_as_index",
             "int_index_nonzero_origin", "negative_origin", "composite_depth2",
             "tuned_forecaster"],
 }
 FAULT_KINDS = {
     "C10": ["overlap_batch", "empty_batch", "pickle_roundtrip", "schedule_ooo",
-            "schedule_interleave"],
+            "schedule_interleave", "peer_raises@k"],
     "C03": ["overlap_batch", "pickle_roundtrip", "schedule_ooo", "schedule_interleave",
-            "index_shift"],
+            "index_shift", "peer_raises@k"],
 }
 RULE = {
     "C10": ("seeded histories over {fit, update(update_params), predict, update_predict_single, "
@@ -61,6 +61,20 @@ ASSUMPTIONS = {
 
 
 # ------------------------------------------------------------------ generation
+def _fh_form(rng, fhspec):
+    """How the same horizon is written by the user: list / array / pd.Index, possibly unsorted."""
+    if fhspec is None or fhspec.get("abs"):
+        return fhspec
+    r = rng.random()
+    if r < 0.15:
+        fhspec["form"] = "index"
+    elif r < 0.3:
+        fhspec["form"] = "array"
+    if len(fhspec["steps"]) > 1 and rng.random() < 0.25:
+        fhspec["unsorted"] = True
+    return fhspec
+
+
 def _gen_steps(rng, max_h=8):
     n = rng.randint(1, 4)
     if rng.random() < 0.45:
@@ -102,7 +116,7 @@ def generate(prop, rng, tier):
             fhspec = rng.choice([None, {"steps": fit_steps, "abs": False}])
         else:
             if not fh_known or rng.random() < 0.75:
-                fhspec = {"steps": _gen_steps(rng), "abs": rng.random() < 0.3}
+                fhspec = _fh_form(rng, {"steps": _gen_steps(rng), "abs": rng.random() < 0.3})
         if r < 0.34:
             ops.append({"op": "predict", "fh": fhspec})
             fh_known = fh_known or fhspec is not None
@@ -131,6 +145,12 @@ def generate(prop, rng, tier):
             total += take
         else:
             ops.append({"op": "pickle"})
+        if rng.random() < 0.12:
+            ops.append({"op": "stale", "back": rng.randint(2, 6), "len": rng.randint(1, 3),
+                        "change": rng.random() < 0.5})
+        if rng.random() < 0.12:
+            ops.append({"op": "bad_call", "kind": rng.choice(["faulty_cv", "faulty_cv", "insample_X"]),
+                        "after": rng.randint(0, 3), "take": rng.choice([6, 8])})
     # empty batches: only for leaf forecasters (whose update documents them) and only
     # while the cutoff is at the end of the data seen (not after an update_predict)
     seen_upd = False
@@ -142,14 +162,14 @@ def generate(prop, rng, tier):
     exog = False
     if _exog_ok(spec) and rng.random() < 0.35:
         exog = True
-        ops = [o for o in ops if o["op"] not in ("ups", "upd")]
+        ops = [o for o in ops if o["op"] not in ("ups", "upd", "bad_call")]
         for o in ops:  # check_y_X(allow_empty=True) does not extend to X: no empty batches with X
             if o["op"] == "update" and o["take"] == 0:
                 o["take"] = 1
     mode = rng.choice(["fifo", "ooo", "ooo", "interleave", "interleave"])
     scen = {
         "spec": spec,
-        "series": {"seed": rng.randint(0, 10 ** 6), "n": total + 4, "origin": origin,
+        "series": {"seed": rng.randint(0, 10 ** 6), "n": total + 14, "origin": origin,
                    "index": index_kind, "sp": rng.choice([2, 3, 4, 4, 6])},
         "shift": rng.choice([-40, -7, 1, 3, 10, 100, 500]),
         "exog": exog,
@@ -187,9 +207,13 @@ def _mk_fh(fhspec, cutoff_label, index_kind):
         return None
     steps = list(fhspec["steps"])
     if not fhspec.get("abs"):
-        if len(steps) == 1 and fhspec.get("scalar"):
-            return steps[0]
-        return np.array(steps) if fhspec.get("array") else steps
+        if fhspec.get("unsorted"):
+            steps = steps[1:] + steps[:1]  # same set of steps, written out of order
+        if fhspec.get("form") == "index":
+            return pd.Index(steps, dtype=np.int64)
+        if fhspec.get("form") == "array":
+            return np.array(steps)
+        return steps
     from sktime.forecasting.base import ForecastingHorizon
     if index_kind == "period":
         vals = pd.PeriodIndex([cutoff_label + s for s in steps], freq=cutoff_label.freq)
@@ -350,6 +374,7 @@ class Engine:
         self.since_refit = []        # batches given with update_params=False since then
         self.fit_fh = None
         self.after_upd = False       # state right after update_predict (see op_predict)
+        self.stale_state = False     # cutoff moved back by a stale batch
         self.top = _top(self.spec)
         self.dead = False
         if prop == "C03":
@@ -399,7 +424,7 @@ class Engine:
     # ---- the history
     def run(self):
         for i, op in enumerate(self.scen["ops"]):
-            if self.dead:
+            if self.dead or self.res.violations:
                 break
             self.res.ops += 1
             getattr(self, "op_" + op["op"])(i, op)
@@ -433,6 +458,7 @@ class Engine:
         self.fit_fh = fhs
         self.refit_clean = True
         self.after_upd = False
+        self.stale_state = False
         self.updates_since_fit = 0
         self.snapshot()
         if fhs and self.prop == "C03":
@@ -460,6 +486,8 @@ class Engine:
     def op_update(self, i, op):
         up = op["up"]
         fh_known = self.a.fh_steps is not None
+        if op["take"] == 0 and self.a.cut != self.a.pos - 1:
+            return  # an empty batch is only injected while the cutoff is at the end of the data
 
         def do(actor):
             b, ov = self._update_args(actor, op)
@@ -494,6 +522,8 @@ class Engine:
                 self.res.probe("update_before_any_fh")
         elif ov:
             self.res.fault("overlap_batch")
+        if len(b):
+            self.stale_state = False
         if up:
             self.refit_clean = True   # (an empty batch still refits on everything seen)
             self.after_upd = False
@@ -503,6 +533,120 @@ class Engine:
             self.after_upd = False
             self.since_refit.append(b)
         self.note("update", len(b), ov, up)
+
+    def op_stale(self, i, op):
+        """A batch that re-sends a stretch of already seen time points (ending before the end
+        of the data seen), without parameter updating: the property's literal clause 'after
+        every update the cutoff is the last time point of the data passed to update'.  (With
+        update_params=True the refit makes the cutoff the end of all data, fit's documented
+        behaviour, so only the non-refitting path is judged.)"""
+        if self.after_upd or self.scen.get("exog") or self.spec["kind"] in ("gscv",):
+            return
+        a = self.a
+        if a.pos - op["back"] < 1 or a.cut != a.pos - 1:
+            return
+
+        def do(actor):
+            start = actor.pos - op["back"]
+            stop = min(actor.pos - 1, start + op["len"])
+            b = actor.batch(start, stop, self.scen["series"]["seed"] + 77 + start
+                            if op.get("change") else None, stop - start)
+            actor.f.update(b, update_params=False)
+            actor.observe(b)
+            actor.cut = stop - 1
+            return b
+        outs = self.call("update", do)
+        if outs is None:
+            return
+        self.state_changes += 1
+        self.updates_since_fit += 1
+        self.refit_clean = False
+        self.snap_refit = None       # batching-invariance twin does not model a cutoff moved back
+        self.since_refit = []
+        # forecasts from a cutoff moved back into the data are not judged (the last window may
+        # not even fit there); the next forward update brings the cutoff to the end again
+        self.after_upd = True
+        self.stale_state = True
+        self.res.probe("stale_batch")
+        self.res.fault("overlap_batch")
+        self.fault_events += 1
+        self.note("stale", op["back"], op["len"])
+
+    def op_bad_call(self, i, op):
+        """A call that fails part-way (a peer supplied by the caller raises): afterwards the
+        forecaster must be where it was: own cutoff restored, later forecasts unaffected."""
+        a = self.a
+        if self.after_upd or self.stale_state or self.scen.get("exog") or a.fh_steps is None or a.fh_abs:
+            return
+        if a.pos + op["take"] > len(a.y):
+            return
+        kind = op["kind"]
+        steps = list(a.fh_steps)
+        if kind == "insample_X" and C.needs_fh_at_fit(self.spec):
+            return
+        n_yield = 0
+        if kind == "faulty_cv":
+            # how many windows the (valid) inner splitter yields before the injected fault
+            from sktime.forecasting.model_selection import SlidingWindowSplitter
+            try:
+                with peers.paused():
+                    n_splits = len(list(SlidingWindowSplitter(fh=steps, window_length=2).split(
+                        a.batch(a.pos, a.pos + op["take"]))))
+            except Exception:
+                return  # the horizon does not fit the batch: not a valid call to begin with
+            n_yield = min(op["after"], n_splits)
+            if n_yield >= n_splits:
+                return  # the fault would never fire
+        for who, actor in (("primary", self.a), ("twin", self.tw)):
+            if actor is None:
+                continue
+            before = actor.f.cutoff
+            try:
+                if kind == "faulty_cv":
+                    cv = _FaultyCV(SlidingWindowSplitter(fh=steps, window_length=2), op["after"])
+                    actor.f.update_predict(actor.batch(actor.pos, actor.pos + op["take"]), cv,
+                                           update_params=False)
+                else:
+                    X = pd.DataFrame({"x": np.zeros(4)}, index=actor.y.index[max(0, actor.cut - 3):actor.cut + 1])
+                    actor.f.predict(fh=[-2, -1, 0], X=X)
+                raised = False
+            except Exception:
+                raised = True
+            self.res.probe("failed_call_injected")
+            self.res.fault("peer_raises@k")
+            self.fault_events += 1
+            if not raised:
+                if kind == "faulty_cv":
+                    self.v("fault_swallowed", "update_predict returned although the splitter raised",
+                           op=kind)
+                    self.dead = True
+                    return
+                continue
+            try:
+                after = actor.f.cutoff
+            except Exception:
+                after = None
+            if after != before:
+                self.v("cutoff_not_restored_after_fault", "a %s call that failed part-way left the "
+                       "forecaster's cutoff at %s (it was %s before the call) (%s)" % (
+                           "update_predict" if kind == "faulty_cv" else "predict", after, before, who),
+                       op=kind)
+                self.dead = True
+                return
+        if kind == "faulty_cv":
+            # data of the windows handed over before the fault is legitimately remembered
+            self.refit_clean = False
+            self.snap_refit = None
+            self.after_upd = True
+            if n_yield > 0:
+                for actor in self.actors():
+                    n_seen = n_yield + 1  # windows of length 2 moving by 1
+                    actor.observe(actor.batch(actor.pos, actor.pos + n_seen))
+                    actor.pos += n_seen
+        for actor in self.actors():
+            if not C.needs_fh_at_fit(self.spec):
+                actor.fh_abs = True  # which horizon is remembered now is unspecified
+        self.note("bad_call", kind)
 
     def op_predict(self, i, op):
         fhs = op.get("fh")
@@ -564,6 +708,7 @@ class Engine:
         self.state_changes += 1
         self.updates_since_fit += 1
         self.after_upd = False
+        self.stale_state = False
         if up:
             self.refit_clean = True
             self.snapshot()
@@ -594,7 +739,7 @@ class Engine:
         cvs = op.get("cv")
         up = op["up"]
         a = self.a
-        if cvs is None and a.fh_steps is None:
+        if self.stale_state or (cvs is None and a.fh_steps is None):
             return
         take = op["take"]
         if a.pos + take > len(a.y):
@@ -618,7 +763,7 @@ class Engine:
         if C.needs_fh_at_fit(self.spec) and cv_steps != list(self.fit_fh["steps"]):
             return
         copies = {}
-        follows = a.cut == a.pos - 1
+        follows = a.cut == a.pos - 1 and not self.after_upd
         if self.prop == "C10":
             try:
                 with peers.paused():
@@ -662,7 +807,8 @@ class Engine:
             self.v("cutoff_not_restored", "update_predict moved the forecaster's own cutoff "
                    "from %s to %s" % (cut_before, cut_after), op="update_predict")
         if self.prop == "C03":
-            self.check_c03_update_predict(i, outs, splits, cv_steps)
+            if follows:  # (inner cutoffs of composites are not restored by an earlier update_predict)
+                self.check_c03_update_predict(i, outs, splits, cv_steps)
             return
         # C10: equals the manual loop of single updates and predicts on a copy
         # (comparable when the batch directly follows the cutoff, as in ordinary use)
@@ -833,6 +979,10 @@ class Engine:
             self.res.probe("absolute_fh")
         if steps != list(range(1, len(steps) + 1)):
             self.res.probe("gapped_fh")
+        if fhs and fhs.get("unsorted"):
+            self.res.probe("unsorted_fh")
+        if fhs and fhs.get("form") == "index":
+            self.res.probe("fh_as_index")
         for who, actor, pred in (("primary", a, p), ("twin", tw, ptw)):
             if pred is None:
                 continue
@@ -916,6 +1066,29 @@ class Engine:
                 self.v("shift_changes_values", "shifting the time index by %d changes "
                        "update_predict values" % self.scen["shift"], op="update_predict",
                        after_update=True)
+
+
+class _FaultyCV:
+    """A caller-supplied splitter (peer) that fails after yielding k windows."""
+
+    def __new__(cls, inner, k):
+        from sktime.forecasting.model_selection._split import BaseSplitter
+
+        class FaultyCV(BaseSplitter):
+            def __init__(self):
+                self._inner, self._k = inner, k
+                self.fh = inner.fh
+                self.window_length = inner.window_length
+
+            def split(self, y):
+                for j, pair in enumerate(self._inner.split(y)):
+                    if j >= self._k:
+                        raise peers.InjectedFault("splitter failed after %d windows" % self._k)
+                    yield pair
+
+            def get_fh(self):
+                return self._inner.get_fh()
+        return FaultyCV()
 
 
 def _default_cv(actor):
